@@ -127,6 +127,7 @@ verus_unit("proofserdev", "proofserdev", ["C12", "C03"], [
 
 
 verus_unit("containerv", "containerv", ["C12", "C03", "C15"], [
+    "<FriProof as Serializable>::write_into / <FriProof as Deserializable>::read_from (layer count, the layers in order, the remainder behind a 16-bit prefix, log2 of the number of partitions - refused when 2^k is not representable; every number of layers up to 255 and every content)",
     "<FriProofLayer as Serializable>::write_into / <FriProofLayer as Deserializable>::read_from (two byte vectors behind 32-bit prefixes, an empty value vector is refused; round trip for every layer with at least one value byte)",
     "<Queries as Serializable>::write_into / <Queries as Deserializable>::read_from (two byte vectors behind 32-bit length prefixes, every content and length below 2^32)",
     "<OodFrame as Serializable>::write_into / <OodFrame as Deserializable>::read_from (three byte vectors behind 16-bit length prefixes, every content and length below 2^16)",
